@@ -475,6 +475,88 @@ def run_out_of_order_end(w) -> None:
         loaded.unload()
 
 
+FAULTED_NEW_SOURCE = '''
+import collections
+import typing
+import icontract
+
+
+class Boom(BaseException):
+    pass
+
+
+@icontract.invariant(lambda self: HUB.inv("inv:P", self) and self.x > 0)
+class P(icontract.DBC):
+    """No __init__: the invariants are checked by the wrapper around __new__."""
+
+    def __new__(cls, x, fail=None):
+        if fail is not None:
+            raise fail
+        self = super().__new__(cls)
+        self.x = x
+        return self
+
+
+@icontract.invariant(lambda self: HUB.inv("inv:Point", self) and self.x > 0)
+class Point(typing.NamedTuple):
+    x: int
+    y: int
+
+
+@icontract.invariant(lambda self: HUB.inv("inv:Q", self) and self.x > 0)
+class Q(P):
+    pass
+'''
+
+
+def run_faulted_new(w) -> None:
+    """A constructor implemented by __new__ alone ends with an exception (of the body, or Python's own TypeError for a call that
+    cannot be bound): the next constructions of the same class are checked as in a fresh process."""
+    import icontract  # pylint: disable=import-outside-toplevel
+
+    loaded = prog.load_source(FAULTED_NEW_SOURCE, w.scratch())
+    mod, hub = loaded.module, loaded.hub
+    try:
+        faults = [("P", lambda: mod.P(1, fail=ValueError("v"))), ("P", lambda: mod.P(1, fail=mod.Boom())), ("P", lambda: mod.P(1, fail=KeyboardInterrupt())),
+                  ("P", lambda: mod.P()), ("Point", lambda: mod.Point(1)), ("Point", lambda: mod.Point(1, 2, 3)), ("Q", lambda: mod.Q(1, fail=SystemExit(3))),
+                  ("P", lambda: mod.P(-5))]
+        for cname, fault in faults:
+            before = in_progress_snapshot()
+            try:
+                fault()
+                outcome = "returned"
+            except BaseException as err:  # pylint: disable=broad-except
+                outcome = "raised " + type(err).__name__
+            w.count("faulted_runs")
+            w.count("faulted_constructions_by_new")
+            w.case(("faulted-new", cname, outcome))
+            after = in_progress_snapshot()
+            if before is not None and after is not None:
+                w.count("state_checks")
+                if after != before:
+                    w.violation("C11/suspension-state-not-restored", "in-progress set was {} before and is {} after a construction of {} which {}".format(
+                        sorted(before), sorted(after), cname, outcome), {"faulted_new": cname})
+            for cls, good, bad in ((mod.P, (1,), (-1,)), (mod.Point, (1, 0), (-1, 0)), (mod.Q, (2,), (-2,))):
+                for args, want in ((good, "returned"), (bad, "ViolationError")):
+                    hub.reset()
+                    try:
+                        cls(*args)
+                        got = "returned"
+                    except icontract.ViolationError:
+                        got = "ViolationError"
+                    except BaseException as err:  # pylint: disable=broad-except
+                        got = "raised " + type(err).__name__
+                    w.count("followup_calls")
+                    invs = [e.id for e in hub.events if e.kind == "inv"]
+                    # (a violated lambda is evaluated once more while its message is built, as documented)
+                    allowed = {"P": ["inv:P"], "Point": ["inv:Point"], "Q": ["inv:P", "inv:Q"]}[cls.__name__]
+                    if got != want or (invs != allowed if want == "returned" else (not invs or not set(invs) <= set(allowed))):
+                        w.violation("C11/checking-not-rearmed-after-fault", "after a construction of {} which {}: {}{} gave {} (expected {}), "
+                                    "invariant evaluations {}".format(cname, outcome, cls.__name__, args, got, want, invs), {"faulted_new": cname})
+    finally:
+        loaded.unload()
+
+
 GROWTH_SOURCE = '''
 import icontract
 
@@ -570,6 +652,8 @@ def run_growth(w) -> None:
 def run(w) -> None:
     if w.shard == 0:
         run_out_of_order_end(w)
+    if w.shard == 2 % w.nshards:
+        run_faulted_new(w)
     # (cheap, and on every shard: an implementation that accumulates leftovers slows every later call down, so that the fault
     # enumeration below would only hit the wall-clock watchdog - inconclusive - instead of reporting what is wrong)
     run_growth(w)
@@ -594,6 +678,9 @@ def replay(case, w) -> None:
         return
     if "growth" in case:
         run_growth(w)
+        return
+    if "faulted_new" in case:
+        run_faulted_new(w)
         return
     spec = case["prog"]
     model = Model(spec)
